@@ -198,6 +198,16 @@ def _check_writer(ctx, cg, f, risky, is_write):
             res.check(ok, 'R-DOM.open-after-validate', f.fq, f"{short(wc)} writes a constant or a value computed before the open",
                       key=f"R-DOM.open-after-validate|write-arg|{f.qualname}|{short(arg, 40)}", line=wc.lineno)
         if is_write:
+            # the file is filled by something other than file.write(<constant | name>): what ends up in it is not tabulated by this check
+            other_forms = [short(sub, 50) for n in after for e in n.exprs() for sub in walk_local(e)
+                           if isinstance(sub, ast.Call) and isinstance(sub.func, ast.Attribute) and unparse(sub.func.value) in file_vars and sub.func.attr != 'write']
+            other_forms += [short(sub, 50) for n in after for e in n.exprs() for sub in walk_local(e)
+                            if isinstance(sub, ast.Call) and dotted(sub.func) == 'print' and any(k.arg == 'file' for k in sub.keywords)]
+            if other_forms:
+                if not bad:
+                    raise AnalysisError(f"{f.fq}: the file is written by `{other_forms[0]}` (not by file.write of a constant or a name): the contents are not "
+                                        "tabulated (idiom not understood)")
+                continue
             _check_write_contents(ctx, f, g, onode, call, kind, writes, computed_before)
 
 
